@@ -84,11 +84,14 @@ func (zset *ZSet) Range(start int, stop int, opt ZRangeOption) []*ZSetMember {
 		stop = len(zset.members) + stop
 	}
 
+	if start < 0 {
+		start = 0
+	}
+	if (len(zset.members) - 1) < stop {
+		stop = len(zset.members) - 1
+	}
 	mems := []*ZSetMember{}
 	for n := start; n <= stop; n++ {
-		if (n < 0) || ((len(zset.members) - 1) < n) {
-			continue
-		}
 		mems = append(mems, zset.members[n])
 	}
 
